@@ -200,19 +200,21 @@ def dummyRef (st : ISt) (att : String) : KeyRef :=
   1000 + ((st.attempts.findIdx? (·.1 = att)).getD st.attempts.length)
 
 /-- `ideliver-from <from> <k> <to> …` → `ideliver m<i> <to> …` (or `none` when there is no such datagram) -/
-def resolveFrom (senders : List String) (t : List String) : Option (List String) :=
+def resolveFrom (senders : List String) (t : List String) (empties : List Bool := []) : Option (List String) :=
   match t with
   | "ideliver-from" :: src :: k :: to :: muts =>
-    let cand := (senders.zipIdx.filter (fun (p : String × Nat) => p.1 = src)).map (·.2)
-    match k.toNat? with
+    -- `<k> = last`: the most recent NON-EMPTY datagram of `src`
+    let last := k = "last"
+    let cand := (senders.zipIdx.filter (fun (p : String × Nat) => p.1 = src && !(last && empties.getD p.2 false))).map (·.2)
+    match (if last then some 0 else k.toNat?) with
     | some k => if k ≥ cand.length then none else some ("ideliver" :: s!"m{cand.getD (cand.length - 1 - k) 0}" :: to :: muts)
     | none => none
   | _ => some t
 
 /-- one operation of the suite; returns state, model observation, spec verdict -/
 def initStep (st : ISt) (t : List String) (implObs : String) : Option (ISt × String × String) :=
-  if t.head? = some "ideliver-from" ∧ (resolveFrom st.senders t).isNone then some (st, "none-in-flight", "-") else
-  match (resolveFrom st.senders t).getD t with
+  if t.head? = some "ideliver-from" ∧ (resolveFrom st.senders t (st.msgs.map (·.isEmpty))).isNone then some (st, "none-in-flight", "-") else
+  match (resolveFrom st.senders t (st.msgs.map (·.isEmpty))).getD t with
   | "ikeys" :: _ =>
     let keys := (implObs.splitOn ",").filterMap Bytes.ofHex
     some ({ keys }, implObs, "-")        -- public keys are parameters (Ed25519 key derivation is not modelled)
